@@ -80,6 +80,7 @@ type simHistOpts struct {
 
 // simHistStats describes what a generated history actually exercised.
 type simHistStats struct {
+	TwinsWithIssuers int
 	Rounds, Commits, Restarts, Crashes, FaultsFired, ClockAnoms, TileCross, MultiTile, EmptyRounds int
 	FatalRounds, FailedPools, LoadFailures, Acks                                                 int
 	InlineRun, InlineDupInSeq, InlineDupAcked, InlineCacheHits, KillsAfterAck, CacheRollbacks, EarlyRelease int
@@ -455,9 +456,18 @@ func (h *simHist) run(t *rapid.T) error {
 						// (the same entry submitted with a chain that names no issuers: any submission with issuers
 						// would, in a real schedule, wait for the issuer upload in flight to finish)
 						twinP := *h.curSubmitting.P
-						twinP.Issuers = nil
-						h.submit(simInlineCtx(context.Background()), &simEntry{ID: h.curSubmitting.ID, Shape: "twin-without-issuers", P: &twinP})
-						h.st.descf("round %d: an equal submission of entry %d arrived during %s %s of the first one", r, h.curSubmitting.ID, op.Kind, op.Class)
+						twinShape := "twin-with-issuers"
+						if in0.l.issuersMu.TryLock() {
+							// the issuer lock is free while this storage operation is in flight: a concurrent submission
+							// that names the same issuers is not held back by it, so it is scheduled right here as it is
+							in0.l.issuersMu.Unlock()
+							h.st.TwinsWithIssuers++
+						} else {
+							twinP.Issuers = nil
+							twinShape = "twin-without-issuers"
+						}
+						h.submit(simInlineCtx(context.Background()), &simEntry{ID: h.curSubmitting.ID, Shape: twinShape, P: &twinP})
+						h.st.descf("round %d: an equal submission (%s) of entry %d arrived during %s %s of the first one", r, twinShape, h.curSubmitting.ID, op.Kind, op.Class)
 					}
 					s.w.clock += 7
 					if h.opts.Dedup {
